@@ -45,3 +45,9 @@ def run(ctx, proofs_ok):
         {"label": "list streams on Pebble with eviction and reopen", "fams": ["list", "list", "list", "key"],
          "n": (600, 3000), "count": (1, 6), "backend": "pebble", "events": {"gc": 0.08, "flush": 0.03, "reopen": 0.02}},
     ], extra=[("exhaustive index pairs on lists of length 0..n", exhaustive_ranges(4 if quick else 6), False)])
+    if ctx.violations:
+        return
+    # the command layer (argument text, option words, replies) of the same families over the network protocol
+    apicheck.run_resp_streams(ctx, [
+        {"label": "list commands over the network protocol (handlers: option words in any case, counts, indexes, wrong arity) against the model", "fams": ['lists', 'lists', 'lists', 'keyspace'], "n": (2500, 8000), "count": (2, 16), "conns": 1},
+    ])
